@@ -1,25 +1,50 @@
 import RawPanelVerif.Lemmas.NetFeed
 import RawPanelVerif.Lemmas.NetTimed
+import RawPanelVerif.Lemmas.NetRun
 /-!
 # C10 — malformed or stalled panel streams are contained
 
-Property theorems only.  `Net.feed` = binary read loop, `Net.step` = the loop with its read deadline as explicit
-state (`Net.repaired`: first header byte without deadline, 2 s for the rest of the header, 2 s for the payload;
-`Net.pinned`: the code before the repair, whole header without deadline).  `limit` and `frameTimeout` are the
-constants regenerated from the source (500000, 2000 ms).
+Property theorems only.  `Net.feed` = binary read loop; `Net.step` / `Net.runL` = the loop as a timed LTS with the
+connection's deadlines as explicit state and *urgent* time: while a read deadline `d` is armed, no byte, close or
+cancel happens at a time ≥ `d` before `expire` has (`Net.repaired` = the code as it is: first header byte without
+deadline, 2 s for the rest of the header, 2 s for the payload, both counted from an absolute instant; `Net.pinned` =
+the code before the repair, whole header without deadline).  `limit`, `frameTimeout` are the constants regenerated
+from the source (500000, 2000 ms).
 
 * `allocs_below_limit`            every `make` of the loop is for fewer than `limit` bytes, whatever the stream
 * `limit_before_alloc`            a length prefix ≥ limit after any valid messages: the loop stops there, those
                                   messages are the only deliveries, nothing is allocated for the bad frame, and
 * `stopped_absorbs`               nothing that arrives later on this connection is delivered
-* `stall_drops`                   repaired code: in every reachable state inside a frame (from its first byte on) a
-                                  deadline is armed, at most `frameTimeout` after the last byte; hence silence longer
-                                  than that enables `expire`, which ends the connection with a non-cancelled disconnect
-* `stall_drops_pinned_payload`    the same for the pinned code, but only inside the payload
-* `pinned_header_stall_counterexample`  the pinned code never times out a frame that stalls inside its header
+* `arrival_needs_open_deadline`   urgency: a byte is consumed by a live loop only strictly before the armed deadline
+* `stalled_frame_never_delivered` **every run** of a fresh connection: the deliveries are exactly the *complete* frames
+                                  among the bytes that arrived before the loop ended (never a byte of an incomplete
+                                  one); and whenever a frame is incomplete and `frameTimeout` or more has passed since
+                                  the last byte was consumed, the loop has ended — by the timeout, unless the run
+                                  contains a close or a cancel.  (Induction over runs; no instance is decided.)
+* `stall_drops`                   in every reachable state inside a frame a deadline `d` is armed with
+                                  `clock < d ≤ last byte + frameTimeout`; from `d` on `expire` is enabled and ends the
+                                  loop, and `arrive` / `peerClose` are disabled (the remaining bytes of the frame can no
+                                  longer be consumed)
+* `stall_drops_pinned_payload`, `pinned_header_stall_counterexample`   the pinned code: only inside the payload
+* `zero_frame_clears_deadline`    completing a header of value 0 delivers the empty message and leaves *no* read
+                                  deadline (198 arms, 199 returns at once, 184 clears): silence after an empty frame
+                                  never ends the connection; `zero_frame_shortcut_counterexample`: in the configuration
+                                  of seeded change C10-6 (no reset at 184, a reset after the payload read, empty frames
+                                  delivered without passing either) the header deadline survives an empty frame
+* `disconnect_non_cancelled`      the argument of `ondisconnect` is the `exit` flag, which only the `cancel` label (the
+                                  writer's context branch) sets: in every run without `cancel` — in particular every run
+                                  ended by a timeout or an over-limit header — the flag is false, any `ondisconnect`
+                                  reported `false`, and once the loop has ended `teardown` is enabled and reports `false`
 * `garbage_payload_keeps_sync`    replacing the payload of any frame by any bytes of the same length changes no frame
                                   boundary and no other delivery
-* `nothing_of_incomplete_frame_delivered`  bytes of a frame that never completes are never delivered
+* `nothing_of_incomplete_frame_delivered`  bytes of a frame that never completes are never delivered (untimed form)
+
+Observation outside the domain: "a frame whose bytes stop arriving for more than 2 s" is read as "a frame that does
+not complete within 2 s of its header" (the deadline of each read is absolute, `Spec.Net.inContractT`); a frame that
+trickles in without a 2 s gap but takes longer is dropped as well (`C08.slow_trickle_dropped`); monitors skip it.
+
+Not proved (timing is outside the model): that the runtime fires the deadline promptly ("drops promptly" is
+`expire` being the only enabled label from `d` on, plus the 400 ms tolerance of the trace monitor), and the retry sleep.
 -/
 namespace RawPanelVerif.C10
 open RawPanelVerif RawPanelVerif.Net
@@ -93,66 +118,252 @@ theorem limit_before_alloc (fs : List Bytes) (hdr rest : Bytes) (hfs : ∀ f ∈
 
 /-! ### stalls -/
 
-/-- inside a frame: at least one byte of it has been consumed and it is not complete -/
-def midFrame : RState → Bool
-  | .waitHdr (_ :: _) => true
-  | .waitPayload _ _ => true
-  | _ => false
+/-- **urgency**: a live loop consumes a byte only strictly before the read deadline in force -/
+theorem arrival_needs_open_deadline (cfg : Cfg) (s s' : CState) (e : List Eff) (now : Nat) (b : UInt8)
+    (h : step cfg s (.arrive now b) = some (s', e)) (hl : s.r.live = true) : ∀ d, s.dl.rd = some d → now < d := by
+  obtain ⟨_, _, hx, _⟩ := step_arrive h
+  intro d hd
+  have := hx hl
+  simpa [notExpired, hd] using this
 
-/-- **a stalled frame is dropped** (repaired code).  In every reachable state inside a frame, a deadline is armed
-that lies at most `frameTimeout` after the arrival of the last byte; so once more than `frameTimeout` has passed
-without a byte, the blocked read times out: the loop stops, and the disconnect is reported as non-cancelled. -/
-theorem stall_drops (s : CState) (h : Reachable repaired s) (hm : midFrame s.r = true) :
-    (∃ d, s.dl = some d ∧ d ≤ s.last + frameTimeout) ∧
-    ∀ now, s.clock ≤ now → s.last + frameTimeout ≤ now →
-      ∃ s', step repaired s (.expire now) = some (s', []) ∧ s'.r = .stopped .timeout ∧
-        disconnectArg false (some .timeout) = false := by
-  have hi := inv_reachable repaired s h
-  have harm : armed repaired s.r = true := by
-    cases hr : s.r with
-    | waitHdr rg => cases rg with
-      | nil => rw [hr] at hm; simp [midFrame] at hm
-      | cons x t => simp [armed, repaired]
-    | waitPayload n rg => simp [armed]
-    | stopped w => rw [hr] at hm; simp [midFrame] at hm
-  have hsome := hi.armedIff
-  rw [harm] at hsome
-  obtain ⟨d, hd⟩ := Option.isSome_iff_exists.mp hsome
-  have hb := hi.bound d hd
+theorem firstStop_mem (ls : List Lbl) (l : Lbl) (h : firstStop ls = some l) : l ∈ ls ∧ l.stops = true := by
+  induction ls with
+  | nil => cases h
+  | cons x r ih =>
+    simp only [firstStop] at h
+    split at h
+    · rename_i hx
+      cases h; exact ⟨by simp, hx⟩
+    · exact ⟨by simp [(ih h).1], (ih h).2⟩
+
+theorem runL_entered (cfg : Cfg) (ls : List Lbl) (s s' : CState) (e : List Eff) (h : s.entered = true)
+    (hr : runL cfg s ls = some (s', e)) : s'.entered = true := by
+  refine runL_induct cfg (fun s => s.entered = true) ?_ ls s s' e h hr
+  intro a b l e ha hs
+  cases l with
+  | enter now => obtain ⟨_, _, rfl, _⟩ := step_enter hs; rfl
+  | arrive now x =>
+    obtain ⟨_, _, _, heq⟩ := step_arrive hs
+    have : b = (tstep cfg now a x).1 := congrArg Prod.fst heq
+    rw [this, tstep_entered]; exact ha
+  | expire now => obtain ⟨_, _, _, _, _, _, rfl, _⟩ := step_expire hs; exact ha
+  | peerClose now => obtain ⟨_, _, _, _, rfl, _⟩ := step_peerClose hs; exact ha
+  | cancel now => obtain ⟨_, _, _, rfl, _⟩ := step_cancel hs; exact ha
+  | teardown now => obtain ⟨_, _, _, _, rfl, _⟩ := step_teardown hs; exact ha
+
+/-- a run of a fresh connection in which a byte has arrived has entered the loop -/
+theorem probed_run_entered (cfg : Cfg) (tp : Nat) (ls : List Lbl) (s' : CState) (e : List Eff)
+    (hr : runL cfg (CState.probed cfg tp) ls = some (s', e)) (hne : arrivedBefore ls ≠ []) : s'.entered = true := by
+  cases ls with
+  | nil => exact absurd rfl hne
+  | cons l r =>
+    obtain ⟨s1, e1, e2, h1, h2, _⟩ := runL_cons hr
+    have : s1.entered = true := by
+      cases l with
+      | enter now => obtain ⟨_, _, rfl, _⟩ := step_enter h1; rfl
+      | arrive now x => obtain ⟨he, _⟩ := step_arrive h1; cases he
+      | expire now => obtain ⟨_, _, he, _⟩ := step_expire h1; cases he
+      | peerClose now => obtain ⟨he, _⟩ := step_peerClose h1; cases he
+      | cancel now => obtain ⟨he, _⟩ := step_cancel h1; cases he
+      | teardown now => obtain ⟨he, _⟩ := step_teardown h1; cases he
+    exact runL_entered cfg r s1 s' e2 this h2
+
+/-- **a stalled frame is never delivered, and its connection is dropped** — for every run of a fresh connection
+(any probe time, any sequence of labels): (1) the deliveries are exactly the complete frames among the bytes that
+arrived before the loop ended, so no delivery ever contains a byte of an incomplete frame; (2) if these bytes end in
+an incomplete frame and `frameTimeout` or more has passed since the last byte was consumed, the loop has ended;
+(3) and if the run contains neither a close by the peer nor a cancel, it was ended by the timeout. -/
+theorem stalled_frame_never_delivered (tp : Nat) (ls : List Lbl) (s' : CState) (e : List Eff)
+    (h : runL repaired (CState.probed repaired tp) ls = some (s', e)) :
+    deliveries e = (Spec.Net.parse limit (arrivedBefore ls)).1 ∧
+    ∀ rest, (Spec.Net.parse limit (arrivedBefore ls)).2 = .incomplete rest → s'.last + frameTimeout ≤ s'.clock →
+      s'.r.live = false ∧
+      ((∀ t, Lbl.peerClose t ∉ ls) → (∀ t, Lbl.cancel t ∉ ls) → s'.r = .stopped .timeout) := by
+  obtain ⟨he, hr⟩ := runL_feed repaired ls _ s' e h
+  refine ⟨by rw [he]; exact (feed_init_parse _).2, ?_⟩
+  intro rest htail hlate
+  have hne : rest ≠ [] := parse_incomplete_ne limit _ rest htail
+  have hF : (feed (CState.probed repaired tp).r (arrivedBefore ls)).1 = stateOfTail (.incomplete rest) := by
+    rw [← htail]; exact (feed_init_parse _).1
+  have hmid := stateOfTail_incomplete_mid rest hne
+  rw [hF] at hr
+  have hbytes : arrivedBefore ls ≠ [] := by
+    intro h0; rw [h0, Spec.Net.parse] at htail; simp at htail
+  have hent := probed_run_entered repaired tp ls s' e h hbytes
+  have hlive : (stateOfTail (.incomplete rest)).live = true := by
+    cases hh : stateOfTail (.incomplete rest) with
+    | stopped w => rw [hh] at hmid; cases hmid
+    | waitHdr _ => rfl
+    | waitPayload _ _ => rfl
+  cases hfs : firstStop ls with
+  | none =>
+    -- nothing has ended the loop: it still waits inside the frame, with a deadline in the future — contradiction
+    exfalso
+    rw [hfs] at hr
+    simp only [afterStop] at hr
+    have hi := inv_reachable repaired coded_repaired s' ⟨tp, ls, e, h⟩
+    have hl' : s'.r.live = true := by rw [hr]; exact hlive
+    have harm : armed repaired s'.r = true := by
+      rw [hr]
+      cases hh : stateOfTail (.incomplete rest) with
+      | stopped w => rw [hh] at hmid; cases hmid
+      | waitHdr rg => cases rg with
+        | nil => rw [hh] at hmid; cases hmid
+        | cons x t => rfl
+      | waitPayload _ _ => rfl
+    have hsome := hi.armedIff hent hl'
+    rw [harm] at hsome
+    obtain ⟨d, hd⟩ := Option.isSome_iff_exists.mp hsome
+    have := hi.bound hent hl' d hd
+    have := hi.future hent hl' d hd
+    omega
+  | some l =>
+    rw [hfs] at hr
+    obtain ⟨hmem, hstops⟩ := firstStop_mem ls l hfs
+    cases l with
+    | expire t => simp only [afterStop] at hr; exact ⟨by rw [hr]; rfl, fun _ _ => hr⟩
+    | peerClose t =>
+      simp only [afterStop] at hr
+      exact ⟨by rw [hr]; rfl, fun hp _ => absurd hmem (hp t)⟩
+    | cancel t =>
+      simp only [afterStop, hlive, if_true] at hr
+      exact ⟨by rw [hr]; rfl, fun _ hc => absurd hmem (hc t)⟩
+    | enter t => cases hstops
+    | arrive t b => cases hstops
+    | teardown t => cases hstops
+
+/-- **a stalled frame is dropped** (repaired code).  In every reachable state inside a frame a deadline `d` is armed
+with `clock < d ≤ last + frameTimeout`; at any time from `d` on the blocked read times out — `expire` is enabled and
+ends the loop — and neither a byte nor a close can be consumed any more. -/
+theorem stall_drops (s : CState) (h : Reachable repaired s) (he : s.entered = true) (hm : midFrame s.r = true) :
+    ∃ d, s.dl.rd = some d ∧ s.clock < d ∧ d ≤ s.last + frameTimeout ∧
+      ∀ now, s.clock ≤ now → d ≤ now →
+        (∃ s', step repaired s (.expire now) = some (s', []) ∧ s'.r = .stopped .timeout) ∧
+        (∀ b, step repaired s (.arrive now b) = none) ∧ step repaired s (.peerClose now) = none := by
+  have hi := inv_reachable repaired coded_repaired s h
   have hlive : s.r.live = true := by
     cases hr : s.r with
     | stopped w => rw [hr] at hm; simp [midFrame] at hm
     | waitHdr _ => rfl
     | waitPayload _ _ => rfl
-  refine ⟨⟨d, hd, hb⟩, ?_⟩
-  intro now hc hn
-  have hdn : d ≤ now := by omega
-  exact ⟨{ s with r := .stopped .timeout, dl := none, clock := now }, by simp [step, hd, hc, hdn, hlive], rfl, rfl⟩
+  have harm : armed repaired s.r = true := by
+    cases hr : s.r with
+    | waitHdr rg => cases rg with
+      | nil => rw [hr] at hm; simp [midFrame] at hm
+      | cons x t => rfl
+    | waitPayload n rg => rfl
+    | stopped w => rw [hr] at hm; simp [midFrame] at hm
+  have hsome := hi.armedIff he hlive
+  rw [harm] at hsome
+  obtain ⟨d, hd⟩ := Option.isSome_iff_exists.mp hsome
+  refine ⟨d, hd, hi.future he hlive d hd, hi.bound he hlive d hd, ?_⟩
+  intro now hc hdn
+  have hne : notExpired s now = false := by simp [notExpired, hd]; omega
+  refine ⟨⟨{ s with r := .stopped .timeout, clock := now }, by simp [step, hd, hc, hdn, hlive, he], rfl⟩, ?_, ?_⟩
+  · intro b; simp [step, hlive, hne]
+  · simp [step, hne]
 
 /-- the pinned code has the same guarantee only inside the payload -/
-theorem stall_drops_pinned_payload (s : CState) (h : Reachable pinned s) (need : Nat) (rg : Bytes)
-    (hm : s.r = .waitPayload need rg) :
-    ∀ now, s.clock ≤ now → s.last + frameTimeout ≤ now →
-      ∃ s', step pinned s (.expire now) = some (s', []) ∧ s'.r = .stopped .timeout := by
-  have hi := inv_reachable pinned s h
-  have hsome := hi.armedIff
+theorem stall_drops_pinned_payload (s : CState) (h : Reachable pinned s) (he : s.entered = true) (need : Nat)
+    (rg : Bytes) (hm : s.r = .waitPayload need rg) :
+    ∃ d, s.dl.rd = some d ∧ d ≤ s.last + frameTimeout ∧
+      ∀ now, s.clock ≤ now → d ≤ now →
+        ∃ s', step pinned s (.expire now) = some (s', []) ∧ s'.r = .stopped .timeout := by
+  have hi := inv_reachable pinned coded_pinned s h
+  have hlive : s.r.live = true := by rw [hm]; rfl
+  have hsome := hi.armedIff he hlive
   rw [hm] at hsome
   simp only [armed] at hsome
   obtain ⟨d, hd⟩ := Option.isSome_iff_exists.mp hsome
-  have hb := hi.bound d hd
-  intro now hc hn
-  have hdn : d ≤ now := by omega
-  exact ⟨{ s with r := .stopped .timeout, dl := none, clock := now }, by simp [step, hd, hc, hdn, hm, RState.live], rfl⟩
+  refine ⟨d, hd, hi.bound he hlive d hd, ?_⟩
+  intro now hc hdn
+  exact ⟨{ s with r := .stopped .timeout, clock := now }, by simp [step, hd, hc, hdn, hlive, he], rfl⟩
 
 /-- **the defect of the pinned tree**: one header byte arrives, then nothing.  The pinned code is in a reachable
-state in which `expire` is never enabled (the deadline is cleared for the whole header read): the connection is
-never dropped.  The repaired code drops it after `frameTimeout`. -/
+state in which `expire` is never enabled (no deadline is armed during the header read): the connection is never
+dropped.  The repaired code drops it after `frameTimeout`. -/
 theorem pinned_header_stall_counterexample :
     (∃ s, Reachable pinned s ∧ midFrame s.r = true ∧ ∀ now, step pinned s (.expire now) = none) ∧
-    (runT pinned 0 (CState.init 0) [(0, .bytes [36]), (3000, .nothing), (600000, .nothing)] {}).stop = none ∧
-    (runT repaired 0 (CState.init 0) [(0, .bytes [36]), (3000, .nothing), (600000, .nothing)] {}).stop
+    (runT pinned 0 (CState.start pinned 0 0) [(0, .bytes [36]), (3000, .nothing), (600000, .nothing)] {}).stop = none ∧
+    (runT repaired 0 (CState.start repaired 0 0) [(0, .bytes [36]), (3000, .nothing), (600000, .nothing)] {}).stop
       = some (.timeout, 2000) := by
-  refine ⟨⟨⟨.waitHdr [36], none, 0, 0, 0⟩, ⟨0, [.arrive 0 36], [], by decide⟩, rfl, fun now => by simp [step]⟩, by decide, by decide⟩
+  refine ⟨⟨(tstep pinned 0 (CState.start pinned 0 0) 36).1, ⟨0, [.enter 0, .arrive 0 36], [], by decide⟩, by decide,
+    fun now => ?_⟩, by decide, by decide⟩
+  have : (tstep pinned 0 (CState.start pinned 0 0) 36).1.dl.rd = none := by decide
+  simp [step, this]
+
+/-- **an empty frame leaves no deadline armed**: when the fourth header byte completes a header of value 0, the
+empty message is delivered, the loop is back at a header, and no read deadline is in force (198 arms it, the read of
+zero bytes returns at once, 184 clears it) — in every configuration with the loop-top reset and without the shortcut
+of `zero_frame_shortcut_counterexample`.  Silence after an empty frame therefore never ends the connection
+(`C08.idle_gap_harmless` applies to the resulting state). -/
+theorem zero_frame_clears_deadline (cfg : Cfg) (hc : Coded cfg) (s s' : CState) (e : List Eff) (now : Nat)
+    (x : UInt8) (rg : Bytes) (b : UInt8) (hr : s.r = .waitHdr (x :: rg)) (h4 : ¬ (b :: x :: rg).length < 4)
+    (h0 : le32 (b :: x :: rg).reverse = 0) (hs : step cfg s (.arrive now b) = some (s', e)) :
+    s'.r = .waitHdr [] ∧ s'.dl.rd = none ∧ e = [.alloc 0, .deliver []] ∧ ∀ t, step cfg s' (.expire t) = none := by
+  obtain ⟨_, _, _, heq⟩ := step_arrive hs
+  have hlive : s.r.live = true := by rw [hr]; rfl
+  rw [tstep_live cfg now s b hlive, hr] at heq
+  have hl : le32 (b :: x :: rg).reverse < limit := by rw [h0]; decide
+  rw [stepByte_hdr_zero _ b h4 hl h0, stepByteT_dl_hdr_zero cfg hc now x rg b s.dl h4 hl h0] at heq
+  simp only [Prod.mk.injEq] at heq
+  obtain ⟨rfl, rfl⟩ := heq
+  exact ⟨rfl, rfl, rfl, fun t => by simp [step]⟩
+
+/-- the configuration of seeded change C10-6: no reset at the loop top, a reset right after the payload read, and
+an empty frame delivered by a shortcut that passes neither -/
+def zeroShortcutCfg : Cfg := { repaired with loopTop := .skip, afterPayload := .clear .read, zeroShortcut := true }
+
+/-- … there the header deadline (armed at the first header byte) survives the empty frame: 2.5 s of silence after an
+empty frame end the connection and the next frame is lost; the code as it is delivers both -/
+theorem zero_frame_shortcut_counterexample :
+    runT zeroShortcutCfg 0 (CState.start zeroShortcutCfg 0 0) [(0, .bytes [0, 0, 0, 0]), (2500, .bytes [1, 0, 0, 0, 7])] {}
+      = { effs := [.alloc 0, .deliver []], stop := some (.timeout, 2000), tight := false } ∧
+    runT repaired 0 (CState.start repaired 0 0) [(0, .bytes [0, 0, 0, 0]), (2500, .bytes [1, 0, 0, 0, 7])] {}
+      = { effs := [.alloc 0, .deliver [], .alloc 1, .deliver [7]], stop := none, tight := false } := by
+  refine ⟨by decide, by decide⟩
+
+/-! ### the argument of `ondisconnect` -/
+
+theorem no_cancel_step (cfg : Cfg) (s s' : CState) (l : Lbl) (e : List Eff) (hl : ∀ t, l ≠ .cancel t)
+    (hx : s.exit = false ∧ (s.reported = none ∨ s.reported = some false)) (hs : step cfg s l = some (s', e)) :
+    s'.exit = false ∧ (s'.reported = none ∨ s'.reported = some false) := by
+  cases l with
+  | enter now => obtain ⟨_, _, rfl, _⟩ := step_enter hs; exact hx
+  | arrive now b =>
+    obtain ⟨_, _, _, heq⟩ := step_arrive hs
+    have : s' = (tstep cfg now s b).1 := congrArg Prod.fst heq
+    subst this
+    simp only [tstep]; split <;> exact hx
+  | expire now => obtain ⟨_, _, _, _, _, _, rfl, _⟩ := step_expire hs; exact hx
+  | peerClose now => obtain ⟨_, _, _, _, rfl, _⟩ := step_peerClose hs; exact hx
+  | cancel now => exact absurd rfl (hl now)
+  | teardown now => obtain ⟨_, _, _, _, rfl, _⟩ := step_teardown hs; exact ⟨hx.1, Or.inr (by rw [hx.1])⟩
+
+/-- **the disconnect is reported as non-cancelled**: `ondisconnect` is called with the `exit` flag, and only the
+`cancel` label sets it.  In every run of a fresh connection that contains no `cancel` — whatever ended the loop: a
+timeout, an over-limit header, the peer — the flag is false and any `ondisconnect` call so far had the argument
+`false`; and once the loop has ended, `teardown` is enabled (at any later time) and calls `ondisconnect(false)`. -/
+theorem disconnect_non_cancelled (cfg : Cfg) (tp : Nat) (ls : List Lbl) (s' : CState) (e : List Eff)
+    (h : runL cfg (CState.probed cfg tp) ls = some (s', e)) (hnc : ∀ t, Lbl.cancel t ∉ ls) :
+    s'.exit = false ∧ (s'.reported = none ∨ s'.reported = some false) ∧
+    (s'.entered = true → s'.r.live = false → s'.reported = none → ∀ now, s'.clock ≤ now →
+      ∃ s'', step cfg s' (.teardown now) = some (s'', []) ∧ s''.reported = some false) := by
+  have key : ∀ (ls : List Lbl) (s s' : CState) (e : List Eff), (∀ t, Lbl.cancel t ∉ ls) →
+      (s.exit = false ∧ (s.reported = none ∨ s.reported = some false)) → runL cfg s ls = some (s', e) →
+      (s'.exit = false ∧ (s'.reported = none ∨ s'.reported = some false)) := by
+    intro ls
+    induction ls with
+    | nil => intro s s' e _ hx hr; simp [runL] at hr; rw [← hr.1]; exact hx
+    | cons l r ih =>
+      intro s s' e hn hx hr
+      obtain ⟨s1, e1, e2, h1, h2, _⟩ := runL_cons hr
+      have hx1 := no_cancel_step cfg s s1 l e1 (fun t ht => hn t (by simp [ht])) hx h1
+      exact ih s1 s' e2 (fun t ht => hn t (by simp [ht])) hx1 h2
+  have hx := key ls _ s' e hnc ⟨rfl, Or.inl rfl⟩ h
+  refine ⟨hx.1, hx.2, ?_⟩
+  intro he hd hrep now hc
+  exact ⟨{ s' with reported := some s'.exit, clock := now }, by simp [step, he, hd, hrep, hc], by simp [hx.1]⟩
 
 /-! ### garbage payloads -/
 
@@ -217,7 +428,12 @@ theorem nothing_of_incomplete_frame_delivered (fs : List Bytes) (f : Bytes) (k :
 /-! non-vacuity -/
 example : (feed .init ([1, 0, 0, 0, 7] ++ [32, 161, 7, 0] ++ [1, 0, 0, 0, 9])).1 = .stopped (.overLimit 500000) := by decide
 example : deliveries (feed .init ([1, 0, 0, 0, 7] ++ [32, 161, 7, 0] ++ [1, 0, 0, 0, 9])).2 = [[7]] := by decide
-example : Reachable repaired ⟨.waitHdr [36], some 2000, 0, 0, 0⟩ := ⟨0, [.arrive 0 36], [], by decide⟩
-example : (runT repaired 300 (CState.init 0) [(0, .bytes [2, 0, 0, 0, 8]), (3000, .bytes [1])] {}).stop = some (.timeout, 2000) := by decide
+example : (runL repaired (CState.probed repaired 0) [.enter 0, .arrive 0 36]).map (fun r => (r.1.r, r.1.dl.rd))
+    = some (.waitHdr [36], some 2000) := by decide
+-- a stalled frame: two bytes of a header, silence; the third byte comes too late to be consumed
+example : runL repaired (CState.probed repaired 0) [.enter 0, .arrive 0 2, .arrive 10 0, .arrive 2500 0] = none := by decide
+example : (runL repaired (CState.probed repaired 0) [.enter 0, .arrive 0 2, .arrive 10 0, .expire 2000, .arrive 2500 0,
+    .teardown 2501]).map (fun r => (r.1.r, r.1.reported, r.2)) = some (.stopped .timeout, some false, []) := by decide
+example : (runT repaired 300 (CState.start repaired 0 0) [(0, .bytes [2, 0, 0, 0, 8]), (3000, .bytes [1])] {}).stop = some (.timeout, 2000) := by decide
 
 end RawPanelVerif.C10
